@@ -23,7 +23,7 @@ EVID = os.path.join(VERIF, "evidence")
 # per property: harness binaries with (share of the run-time budget, knobs that may be shrunk towards their minimum)
 PROPS = {
     "C17": {
-        "harnesses": {"c17_fence": 0.25, "c17_asm": 0.75},
+        "harnesses": {"c17_fence": 0.2, "c17_asm": 0.5, "c17_asm.race": 0.3},
         "budget_s": {"quick": 50, "thorough": 900},
         "min_runs": {"quick": 400, "thorough": 5000},
     },
